@@ -112,8 +112,8 @@ PROPS["C03"] = dict(
 )
 
 PROPS["C05"] = dict(
-    modules=["Sth.Props.C01", "Sth.Props.C08", "Sth.Props.C05"],
-    theorems=list(CORE_RL) + ['Sth.C05_wf_invariant', 'Sth.C05_linearizable', 'Sth.C05_log_faithful', 'Sth.C05_entry_during_call', 'Sth.C05_real_time', 'Sth.C05_owned_keys_no_overlap', 'Sth.C05_linearizable_owned', 'Sth.C05_put_index_publishes', 'Sth.C05_read_your_writes', 'Sth.C05_get_sees_contents', 'Sth.C05_keys_do_not_interfere', 'Sth.C05_frame_step', 'Sth.C05_freelist_exactly_once', 'Sth.C05_no_leak', 'Sth.C05_quiescent_exactly_once', 'Sth.C05_double_free_without_premise', 'Sth.C05_overlap_put_remove_errs', 'Sth.C05_overlap_new_puts_lose_one', 'Sth.C05_overlap_new_puts_not_legal'],
+    modules=["Sth.Props.C01", "Sth.Props.C08", "Sth.Props.C05", "Sth.Props.C05Pools"],
+    theorems=list(CORE_RL) + ['Sth.C05_wf_invariant', 'Sth.C05_linearizable', 'Sth.C05_log_faithful', 'Sth.C05_entry_during_call', 'Sth.C05_real_time', 'Sth.C05_owned_keys_no_overlap', 'Sth.C05_linearizable_owned', 'Sth.C05_put_index_publishes', 'Sth.C05_read_your_writes', 'Sth.C05_get_sees_contents', 'Sth.C05_keys_do_not_interfere', 'Sth.C05_frame_step', 'Sth.C05_freelist_exactly_once', 'Sth.C05_no_leak', 'Sth.C05_quiescent_exactly_once', 'Sth.C05_double_free_without_premise', 'Sth.C05_overlap_put_remove_errs', 'Sth.C05_overlap_new_puts_lose_one', 'Sth.C05_overlap_new_puts_not_legal', 'Sth.C05_pools_section_effect', 'Sth.C05_pools_view_invariant', 'Sth.C05_pools_invariant', 'Sth.C05_pools_lockAfterSwap_lost_for_good', 'Sth.C05_pools_lockAfterSwap_temporarily_invisible', 'Sth.C05_pools_lockAfterSwap_rmw_on_stale', 'Sth.C05_pools_skipPools_stale'],
     runs=[dict(engine="sched", quick=1000, thorough=20000, extra=["-profile", "c05"], nontrivial=["overlapping-calls", "conc-model-agrees"])],
     shrink_budget=0,
     rule="2-3 threads of 1-3 Put/Get/Has/GetSize/Remove calls on 2-4 keys clustered in one or two buckets with shared prefixes, plus a "
@@ -237,8 +237,8 @@ PROPS["C17"] = dict(
 )
 
 PROPS["C09"] = dict(
-    modules=["Sth.Props.C01", "Sth.Props.C08", "Sth.Props.C09"],
-    theorems=list(CORE_RL) + ['Sth.C09_mismatch_refused', 'Sth.C09_same_bits_no_translation', 'Sth.C09_translate_preserves_contents', 'Sth.C09_reads_preserved', 'Sth.C09_unspecified_ifs', 'Sth.C09_strip_total'],
+    modules=["Sth.Props.C01", "Sth.Props.C08", "Sth.Props.C09", "Sth.Props.C09G"],
+    theorems=list(CORE_RL) + ['Sth.C09_mismatch_refused', 'Sth.C09_same_bits_no_translation', 'Sth.C09_translate_preserves_contents', 'Sth.C09_reads_preserved', 'Sth.C09_unspecified_ifs', 'Sth.C09_strip_total', 'Sth.C09_translate_preserves_contents_igc', 'Sth.C09_reads_preserved_igc', 'Sth.C09_mismatch_refused_igc', 'Sth.C09_same_bits_no_translation_igc', 'Sth.C09_translate_preserves_contents_gc', 'Sth.C09_translate_preserves_contents_gc_cid', 'Sth.C09_translate_keeps_gc_invariant', 'Sth.C09_mismatch_refused_gc', 'Sth.C09_same_bits_no_translation_gc'],
     runs=[dict(engine="seq", quick=300, thorough=10000, extra=["-profile", "c09"], nontrivial=["rebucketed", "open-err:wrong-index-file-size", "open-err:wrong-primary-file-size"]),
           dict(engine="crash", quick=24, thorough=1000, extra=["-profile", "c09"], nontrivial=["translate-crash"])],
     shrink_budget=0,
